@@ -24,7 +24,10 @@ def stored_name(op: dict[str, Any], name: str) -> str:
     """File name an op stores its text under: normally unique per op; with a ``slot`` the same
     path is written again and again (a file replaced in place between parses)."""
     if op.get("slot") is not None:
-        return name.split("o")[0] + f"slot{op['slot']}"
+        name = name.split("o")[0] + f"slot{op['slot']}"
+    if op.get("fname"):
+        # file and folder names as users have them: blanks, braces, per-cent signs, non-ASCII
+        name = op["fname"].replace("@", name)
     return name
 
 
